@@ -7,16 +7,21 @@
 # worktree, runs the checks named in meta.json "caught_by" (plus the seed's own property), and reports.
 # Not a registered command: results are development information, never evidence.
 TIER="${1:-quick}"; GLOB="${2:-*}"
-M=/root/scratch/mut
+# optional sharding: MUT_SHARD=i/n runs every n-th seed starting at i (0-based) in its own scratch copy
+SH_I="${MUT_SHARD%%/*}"; SH_N="${MUT_SHARD##*/}"
+[ -z "$MUT_SHARD" ] && { SH_I=0; SH_N=1; }
+M=/root/scratch/mut$SH_I
 git -C /repo worktree remove --force $M/repo 2>/dev/null
 mkdir -p $M && rm -rf $M/verif
 git -C /repo worktree add --detach $M/repo HEAD >/dev/null 2>&1 || exit 2
 rsync -a --exclude target --exclude .git /verif/ $M/verif/
 sed -i "s#path = \"/repo\"#path = \"$M/repo\"#" $M/verif/harness/Cargo.toml $M/verif/miri-harness/Cargo.toml
 cd $M/verif || exit 2
-ok=0; bad=0
+ok=0; bad=0; idx=0
 for d in seeded/$GLOB/; do
   name=$(basename "$d")
+  idx=$((idx+1))
+  [ $(( (idx-1) % SH_N )) -ne "$SH_I" ] && continue
   ids=$(python3 -c "
 import json
 m=json.load(open('$d/meta.json'))
@@ -39,3 +44,4 @@ print(' '.join(ids))")
 done
 echo "caught $ok, not caught $bad"
 git -C /repo worktree remove --force $M/repo
+rm -rf $M
